@@ -21,6 +21,9 @@ WithFam(c, md, rd, jm, ju) == [c EXCEPT !.mdom = md, !.rdom = rd, !.jmono = jm, 
 SpaceQ1 == {Mk(<<2, 2>>, m, <<0, 0>>, e, t, b, 1, it, TRUE) :
               m \in {<<1, 0>>, <<1, 1>>}, e \in T3(1, 2), t \in T3(1, 2), b \in {NoB, BothB}, it \in {0, 1}}
            \cup {Mk(<<2, 2>>, <<1, 1>>, <<0, 0>>, <<>>, <<>>, b, 1, 2, st) : b \in AllB, st \in BOOLEAN}
+           \* a one-sided bound of exactly zero together with a trust (the bounds step after the trust passes)
+           \cup {Mk(<<2, 2>>, <<1, 0>>, <<0, 0>>, e, t, b[1], b[2], 1, TRUE) :
+                   e \in T3(1, 2), t \in {<<>>, << <<1, 2, 1>> >>}, b \in {<< <<TRUE, FALSE>>, 1 >>, << <<FALSE, TRUE>>, 0 >>}}
 DomQ1 == -1..2
 \* q2: 2x2x2 and 3x3, kernels over {0,1}: the interacting combinations
 SpaceQ2 ==
